@@ -124,6 +124,14 @@ def run(ck, tier):
     except Exception as e:
         import traceback
         ck.refuted("R-C14-lifetime", "internal:%s" % type(e).__name__, "", "rule could not run: %s" % traceback.format_exc()[-600:])
+    ck.rule("R-C14-samedoc", "the hash stored by ignore_lint is taken from the same tokens is_ignored will see: the JavaScript-facing linter builds the Document for ignore_lint with the parser of the lint's language and with self.dictionary - the very dictionary Linter::lint parses with (word metadata is part of the hashed context, so a curated-only constructor hashes other token kinds next to a user-dictionary word) (rule instances of R-C16-samedoc)")
+    try:
+        from . import c16, c05
+        from ..util import fns_by_key as _fbk
+        c16._samedoc(c05._Sub(ck, "R-C14-samedoc", "wasm:"), p, _fbk(p))
+    except Exception as e:
+        import traceback
+        ck.refuted("R-C14-samedoc", "internal:%s" % type(e).__name__, "", "rule could not run: %s" % traceback.format_exc()[-600:])
     tg = TyGraph(p)
     if not ck.anchor("R-C14-locfree", ROOT, tg.find_type(ROOT)):
         return
